@@ -121,7 +121,7 @@ def ctparse(
             # same treatment of the text as when a time expression is found
             txt = _preprocess_string(txt)
             labels = _get_labels(txt)
-            txt = re.sub('#[a-zA-Z0-9_-]+', '', txt).strip()
+            txt = re.sub(r'\s+', ' ', re.sub('#[a-zA-Z0-9_-]+', '', txt)).strip()
             subject = ' '.join(re.split(r'[\s-]+', txt))
             return CTParse(None, None, None, subject, labels)
         parsed_list.sort(key=lambda p: p.score)  # type: ignore
@@ -178,7 +178,9 @@ def _ctparse(
         # =========== Label extraction ===========
         labels = _get_labels(txt)
         # clear raw text of labels so what follows works properly
-        txt = re.sub('#[a-zA-Z0-9_-]+','', txt).strip()
+        # (a removed label must not leave a double blank behind: the length of
+        # the text and of the gaps between matches enter coverage and scores)
+        txt = re.sub(r'\s+', ' ', re.sub('#[a-zA-Z0-9_-]+', '', txt)).strip()
 
         logger.debug("=" * 80)
         logger.debug("-> matching regular expressions")
